@@ -343,8 +343,7 @@ def frame_oracle(ctx, c, runs):
     return past
 
 
-def run_framing(ctx):
-    real = real_payloads(ctx)
+def run_framing(ctx, real):
     cases = framing_cases(ctx, real)
     impl = ctx.harness('drive_frame.py', {'alias': ALIAS, 'cases': [c.payload() for c in cases]})
     ctx.log('framing: implementation ran %d chunkings of %d streams' % (impl['runs'], len(cases)))
@@ -392,6 +391,269 @@ def run_framing(ctx):
     return cases
 
 
+# ---------------------------------------------------------------------------
+# handshake
+# ---------------------------------------------------------------------------
+PHASES = {'_p1': 1, '_p2': 2, '_p3': 3, '_p4': 4, '_p5': 5, '_p6': 6}
+ECHO_GOOD = ('echo', 'echo_ws')
+
+
+class Scenario:
+    def __init__(self, name, first=4, ident=b'\x07', l2=None, w4=4, reply=b'\x08', l5=None,
+                 valid=(b'\x07', b'\x08'), echo='echo'):
+        self.name = name
+        self.first, self.ident, self.w4, self.reply = first, ident, w4, reply
+        self.l2 = len(ident) if l2 is None else l2
+        self.l5 = len(reply) if l5 is None else l5
+        self.valid = list(valid)
+        self.echo = {reply.hex(): echo}
+        self.bytes = (struct.pack('>II', first, self.l2) + ident
+                      + struct.pack('>II', w4, self.l5) + reply)
+
+    def fail_at(self):
+        """first phase that fails, None if the handshake passes (from the
+        scenario's own fields; lengths always describe the blobs here)"""
+        if self.first != 4:
+            return 1
+        if self.ident not in self.valid:
+            return 3
+        if self.w4 != 4:
+            return 4
+        if self.reply not in self.valid or self.echo[self.reply.hex()] not in ECHO_GOOD:
+            return 5
+        return None
+
+
+def scenarios():
+    S = Scenario
+    return [
+        S('good'),
+        S('good-echo-padded', echo='echo_ws'),
+        S('good-long-blobs', ident=b'\x07' * 5, reply=b'\x08\x09\x0a', valid=(b'\x07' * 5, b'\x08\x09\x0a')),
+        S('bad-first-word', first=5),
+        S('bad-first-word-0', first=0),
+        S('empty-ident', ident=b''),
+        S('empty-ident-accepted', ident=b'', valid=(b'', b'\x08')),
+        S('bad-ident-signature', ident=b'\x06'),
+        S('bad-second-word', w4=3),
+        S('bad-reply-signature', reply=b'\x09'),
+        S('bad-echo', echo='wrong'),
+        S('bad-echo-truncated', echo='trunc'),
+        S('bad-echo-inner-space', echo='inner_ws'),
+        S('empty-reply', reply=b''),
+        S('corner-empty-reply-accepted', reply=b'', valid=(b'\x07', b'')),
+    ]
+
+
+def hs_cases(ctx, real):
+    rng = random.Random('%s:C14:hs' % ctx.seed)
+    cases = []
+    for chan in CHANS:
+        al = {bytes.fromhex(h): s for h, s in ALIAS[chan].items()}
+        good = sorted(al)
+        closers = [p for p, s in al.items() if closing_spec(chan, s)]
+        apps = [('two', [b'\x04', b'\x02\x03'] if chan != 'db' else [b'\x04', b'\x01'])]
+        extra = [('closing-then-more', [b'\x01', b'\x04']), ('undecodable', [b'\x04', b'\xff', b'\x01'])]
+        for sc in scenarios():
+            for an, app in apps + (extra if sc.name in ('good', 'corner-empty-reply-accepted') else []):
+                parts = [('raw', sc.bytes)] + [('frame', a) for a in app]
+                c = Case(chan, sc.name + '/' + an, parts, [], good + [b'\xff'], closers, good,
+                         hs={'valid': [v.hex() for v in sc.valid], 'echo': sc.echo})
+                c.sc, c.app = sc, app
+                n, h = len(c.stream), len(sc.bytes)
+                chk = [[n], [1] * n] + [[i, n - i] for i in range(1, n)]
+                hi = min(n, h + 7)
+                pairs = [(i, j) for i in range(1, hi) for j in range(i + 1, hi + 1) if j < n]
+                if ctx.quick:
+                    pairs = [pq for pq in pairs if pq[0] >= h - 10 or rng.random() < 0.25]
+                chk += [[i, j - i, n - j] for i, j in pairs]
+                for _ in range(ctx.n(25, 300)):
+                    cuts = sorted(set(rng.randrange(1, n) for _ in range(rng.choice([3, 4, 6, 9]))))
+                    chk.append([j - i for i, j in zip([0] + cuts, cuts + [n])])
+                c.chunkings = chk
+                cases.append(c)
+        # one long stream of real pickles behind a good handshake
+        rp = real[chan]
+        sc = Scenario('good-real', ident=b'IDENT-BLOB' * 3, reply=b'REPLY' * 9,
+                      valid=(b'IDENT-BLOB' * 3, b'REPLY' * 9))
+        order = [0, 1, 0, 2] if chan == 'db' else list(range(len(rp)))
+        app = [rp[i][0] for i in order]
+        c = Case(chan, 'good-real/real', [('raw', sc.bytes)] + [('frame', a) for a in app], [],
+                 [q for q, _ in rp], [q for q, s in rp if closing_spec(chan, s)], [q for q, _ in rp],
+                 hs={'valid': [v.hex() for v in sc.valid], 'echo': sc.echo})
+        c.sc, c.app = sc, app
+        n, h = len(c.stream), len(sc.bytes)
+        chk = [[n], [1] * n] + [[i, n - i] for i in range(1, h + 12)]
+        for _ in range(ctx.n(40, 600)):
+            cuts = set(rng.randrange(1, n) for _ in range(rng.choice([1, 2, 5, 9, 20])))
+            if rng.random() < 0.6:
+                cuts.add(rng.randrange(max(1, h - 9), h + 9))
+            cuts = sorted(cuts)
+            chk.append([j - i for i, j in zip([0] + cuts, cuts + [n])])
+        c.chunkings = chk
+        cases.append(c)
+    return cases
+
+
+def canon_impl_hs(o, known):
+    evs = canon_events(o['events'], known)
+    if [2] in evs:
+        return (evs, o['live'])
+    for k, t in (('live', bool), ('restored', bool), ('wlen', int)):
+        if type(o[k]) is not t:
+            return ('bad-type', k, repr(o[k]))
+    ln = o['len']
+    if not (ln is None or type(ln) is int):
+        return ('bad-len-type', repr(ln))
+    return (evs, o['live'], o['restored'], PHASES.get(o['wphase'], o['wphase']), o['wlen'],
+            list(bytes.fromhex(o['wbuf'])), list(bytes.fromhex(o['buf'])), -1 if ln is None else ln)
+
+
+def canon_model_hs(m):
+    evs, (live, restored, ph, wlen, wbuf, (ibuf, ilen)) = m
+    evs = [list(e) for e in evs]
+    if [2] in evs:
+        return (evs, live)
+    return (evs, live, restored, ph, wlen, list(wbuf), list(ibuf), ilen)
+
+
+def model_hs(ctx, cases, chal):
+    pre, exprs, shape = [], [], []
+    nil = '(@nil (list Z))'
+    for k, c in enumerate(cases):
+        valid = [bytes.fromhex(h) for h in c.hs['valid']]
+        echo = [bytes.fromhex(h) for h, m in c.hs['echo'].items() if m in ECHO_GOOD]
+        pre.append('Definition s%d : list Z := %s.' % (k, zl(c.stream)))
+        pre.append('Definition t%d : list (list Z) := %s.' % (k, zll(c.known)))
+        pre.append('Definition c%d : chan := chan_of %s %s.'
+                   % (k, zll(c.closers) if c.closers else nil, zll(c.good) if c.good else nil))
+        pre.append('Definition o%d : oracle := oracle_of %s %s %s.'
+                   % (k, zll(valid) if valid else nil, zll(echo) if echo else nil, zl(chal)))
+        step = 60
+        for i in range(0, len(c.chunkings), step):
+            part = c.chunkings[i:i + step]
+            ll = '[' + ';'.join(zl(l[:-1]) if len(l) > 1 else '(@nil Z)' for l in part) + ']'
+            exprs.append('map (fun l => srun_lens o%d c%d t%d l s%d) %s' % (k, k, k, k, ll))
+            shape.append((k, part))
+    res = ctx.coq_eval(['DV.Model.Frame', 'DV.Model.Shake'], exprs, preamble='\n'.join(pre), chunk=14)
+    out = [dict() for _ in cases]
+    for (k, part), r in zip(shape, res):
+        for lens, obs in zip(part, r):
+            out[k][tuple(lens)] = canon_model_hs(obs)
+    return out
+
+
+def hs_oracle(ctx, c, runs, chal):
+    """handshake property on the implementation's observations"""
+    sc = c.sc
+    fail = sc.fail_at()
+    corner = fail is None and sc.l5 == 0
+    sent = [[3] + list(struct.pack('>I', len(chal)) + chal)]
+    app = []
+    for p in c.app:
+        if p not in c.good:
+            app.append([2])
+            break
+        app.append([0, c.known.index(p)])
+        if p in c.closers:
+            app.append([1])
+    if fail is None:
+        exp = sent + app + ([[1]] if corner else [])
+    else:
+        exp = (sent if fail > 3 else []) + [[1]]
+    conformant = not any(e in ([1], [2]) for e in exp[:-1])
+    rep = {'source': 'oracle', 'alias': ALIAS}
+    for lens, obs, raw in runs:
+        ev = obs[0]
+        delivered = [e for e in ev if e[0] == 0]
+        if fail is not None and delivered:
+            ctx.violation('handshake-gate', {'chan': c.chan, 'phase': fail},
+                          '%s/%s: %d message(s) delivered although phase %d fails (chunks %s)'
+                          % (c.chan, c.label, len(delivered), fail, lens),
+                          dict(rep, theorem='C14_gate', case=dict(c.payload(), chunkings=[lens]),
+                               expected=exp, observed=ev))
+            return
+        if fail is not None and (raw['live'] or [1] not in ev):
+            ctx.violation('handshake-not-closed', {'chan': c.chan, 'phase': fail},
+                          '%s/%s: phase %d fails but the connection is not closed (chunks %s)'
+                          % (c.chan, c.label, fail, lens),
+                          dict(rep, theorem='C14_fail_closed', case=dict(c.payload(), chunkings=[lens]),
+                               expected=exp, observed=ev))
+            return
+        if [3] in [e[:1] for e in ev] and ev[0][:1] != [3]:
+            ctx.violation('handshake-gate', {'chan': c.chan, 'phase': 0},
+                          '%s/%s: something happened before the challenge was sent' % (c.chan, c.label),
+                          dict(rep, theorem='C14_gate', case=dict(c.payload(), chunkings=[lens]),
+                               expected=exp, observed=ev))
+            return
+        if corner:
+            continue   # verify(b"") and echo(b"") both true: impossible with PGP; model tie only
+        bad = None
+        if cut_trace(ev) != cut_trace(exp):
+            bad = 'prefix'
+        elif conformant and ev != exp:
+            bad = 'full'
+        if bad:
+            ctx.violation('handshake-outcome', {'chan': c.chan, 'level': bad, 'pass': fail is None},
+                          '%s/%s chunks %s: trace %s, expected %s' % (c.chan, c.label, lens, ev, exp),
+                          dict(rep, theorem='C14_after / C14_shake_chunking',
+                               case=dict(c.payload(), chunkings=[lens]), expected=exp, observed=ev))
+            return
+
+
+def run_handshake(ctx, real):
+    cases = hs_cases(ctx, real)
+    impl = ctx.harness('drive_frame.py', {'alias': ALIAS, 'cases': [c.payload() for c in cases]})
+    ctx.log('handshake: implementation ran %d chunkings of %d scenario streams' % (impl['runs'], len(cases)))
+    chal = None
+    for r in impl['cases']:
+        for o in r['distinct']:
+            for e in o['events']:
+                if e[0] == 'S' and chal is None:
+                    chal = bytes.fromhex(e[1])[4:]
+    chal = chal or b''
+    ctx.note('handshake_challenge_text', chal.decode('ascii', 'replace'))
+    per_case = []
+    hist = {}
+    for c, r in zip(cases, impl['cases']):
+        dist = [canon_impl_hs(o, c.known) for o in r['distinct']]
+        runs = [(lens, dist[k], r['distinct'][k]) for lens, k in r['runs']]
+        per_case.append(runs)
+        hs_oracle(ctx, c, runs, chal)
+        hist[c.sc.name] = hist.get(c.sc.name, 0) + len(runs)
+    ctx.note('handshake_runs_by_scenario', hist)
+    model = model_hs(ctx, cases, chal)
+    nev, keys, mism = 0, [], None
+    for c, runs, mod in zip(cases, per_case, model):
+        h = len(c.sc.bytes)
+        failing = c.sc.fail_at() is not None
+        for lens, obs, raw in runs:
+            nev += 1
+            m = mod.get(tuple(lens))
+            if m != obs and mism is None:
+                mism = (c, lens, obs, m)
+            pos, shared = 0, False
+            for n in lens:
+                if pos < h < pos + n:
+                    shared = True
+                pos += n
+            if failing or shared:
+                keys.append(('hs', c.chan, c.label, lens))
+    ctx.count(evaluations=nev, nontrivial_keys=keys)
+    c, runs = cases[0], per_case[0]
+    lens, obs, raw = runs[len(runs) // 2]
+    ctx.sample({'chan': c.chan, 'scenario': c.label, 'chunks': lens, 'events': raw['events'][:6],
+                'phase': raw['wphase'], 'restored': raw['restored']})
+    if mism:
+        c, lens, obs, m = mism
+        ctx.broken('correspondence Shake.v vs TwistedWrapper in front of %s' % c.chan,
+                   'scenario %s (%s) chunks %s\nimplementation: %s\nmodel: %s'
+                   % (c.label, c.stream.hex(), lens, obs, m),
+                   {'source': 'correspondence', 'alias': ALIAS,
+                    'case': dict(c.payload(), chunkings=[lens]),
+                    'expected': repr(m), 'observed': repr(obs)})
+
+
 def run(ctx):
     ctx.cov['rule'] = (
         'framing: per channel (farm Hand, shelve Worker, LogSink) every cut of short streams '
@@ -421,7 +683,9 @@ def run(ctx):
         fps.update({path.split('/')[-1] + ':' + k: v for k, v in core.fingerprint(path, names).items()})
     ctx.note('fingerprints', fps)
     r = ctx.coq_props()
-    run_framing(ctx)
+    real = real_payloads(ctx)
+    run_framing(ctx, real)
+    run_handshake(ctx, real)
     if not r['ok']:
         ctx.broken('theorem/file %s' % r['failing'], r['log'],
                    {'source': 'proof', 'theorem': r['failing']})
